@@ -43,6 +43,8 @@ pub fn calc_for_mode(d: &Difficulty, map: &Beatmap, mode: GameMode) -> Result<Di
 }
 
 pub fn strains_for_mode(d: &Difficulty, map: &Beatmap, mode: GameMode) -> Result<Strains, String> {
+    // (on a clone of the settings: a Clone that loses a field would make strains and calculate disagree)
+    let d = &d.clone();
     match mode {
         GameMode::Osu => d.strains_for_mode::<Osu>(map).map(Strains::Osu),
         GameMode::Taiko => d.strains_for_mode::<Taiko>(map).map(Strains::Taiko),
@@ -62,6 +64,29 @@ pub fn mode_gradual_difficulty(d: &Difficulty, map: &Beatmap, mode: GameMode) ->
         GameMode::Mania => d.gradual_difficulty_for_mode::<Mania>(map).map(|g| g.map(DifficultyAttributes::Mania).collect()),
     }
     .map_err(|e| format!("gradual_difficulty_for_mode({mode:?}) failed: {e}"))
+}
+
+/// The mode-specific gradual difficulty calculator, `k` values consumed, then one consuming call by value:
+/// (`count()`, `last()`), each on its own calculator.
+pub fn mode_gradual_terminal(d: &Difficulty, map: &Beatmap, mode: GameMode, k: usize) -> Result<(usize, Option<DifficultyAttributes>), String> {
+    macro_rules! run {
+        ($m:ty, $variant:ident) => {{
+            let mk = || d.clone().gradual_difficulty_for_mode::<$m>(map).map_err(|e| format!("gradual_difficulty_for_mode({mode:?}) failed: {e}"));
+            let mut a = mk()?;
+            let mut b = mk()?;
+            for _ in 0..k {
+                let _ = a.next();
+                let _ = b.next();
+            }
+            Ok((a.count(), b.last().map(DifficultyAttributes::$variant)))
+        }};
+    }
+    match mode {
+        GameMode::Osu => run!(Osu, Osu),
+        GameMode::Taiko => run!(Taiko, Taiko),
+        GameMode::Catch => run!(Catch, Catch),
+        GameMode::Mania => run!(Mania, Mania),
+    }
 }
 
 /// `Difficulty::gradual_performance_for_mode::<M>` dispatched on a runtime mode and walked with the
